@@ -245,7 +245,7 @@ func statStr(m map[string]int) string {
 func workerCmd(bi *buildInfo, j job, procs int) *exec.Cmd {
 	js, _ := json.Marshal(j)
 	cmd := exec.Command(bi.bin, "-test.run", "^TestWorker$", "-test.timeout", "0", "-test.count", "1")
-	cmd.Env = append(os.Environ(), "VERIF_JOB="+string(js), "GOMAXPROCS="+strconv.Itoa(procs), "GORACE=halt_on_error=0 history_size=2")
+	cmd.Env = append(os.Environ(), "VERIF_JOB="+string(js), "GOMAXPROCS="+strconv.Itoa(procs), "GORACE=halt_on_error=0 history_size=4")
 	cmd.Dir = scratch
 	return cmd
 }
@@ -912,7 +912,10 @@ func sanitize(s string) string {
 	return b.String()
 }
 
-// raceReports extracts race detector reports that involve package gomavlib.
+// raceReports extracts race detector reports. A report is attributed to the repository when at
+// least one of its two conflicting accesses is performed by code of the module under test (the
+// innermost frame that is not runtime / standard library decides); a report whose two accesses
+// are both performed by harness code is a harness race (infrastructure error).
 func raceReports(stderr string) []string {
 	var out []string
 	parts := strings.Split(stderr, "WARNING: DATA RACE")
@@ -921,7 +924,36 @@ func raceReports(stderr string) []string {
 		if end >= 0 {
 			p = p[:end]
 		}
-		if strings.Contains(p, "github.com/bluenviron/gomavlib/v3") {
+		repo := false
+		// the first two stanzas ("Read at ..."/"Write at ..." and "Previous ...") are the accesses
+		stanzas := strings.Split(p, "\n\n")
+		n := 0
+		for _, st := range stanzas {
+			t := strings.TrimSpace(st)
+			if !(strings.HasPrefix(t, "Read at") || strings.HasPrefix(t, "Write at") || strings.HasPrefix(t, "Previous ") ||
+				strings.HasPrefix(t, "Atomic")) {
+				continue
+			}
+			n++
+			for _, line := range strings.Split(t, "\n")[1:] {
+				fn := strings.TrimSpace(line)
+				if fn == "" || strings.HasPrefix(fn, "/") {
+					continue // file:line
+				}
+				if strings.HasPrefix(fn, "runtime.") || strings.HasPrefix(fn, "internal/") || strings.HasPrefix(fn, "sync.") ||
+					strings.HasPrefix(fn, "sync/") || strings.HasPrefix(fn, "reflect.") || !strings.Contains(fn, "/") {
+					continue // runtime and standard library frames: look at the caller
+				}
+				if strings.HasPrefix(fn, "github.com/bluenviron/gomavlib/v3") {
+					repo = true
+				}
+				break
+			}
+			if n == 2 {
+				break
+			}
+		}
+		if repo {
 			out = append(out, "DATA RACE"+tail(p, 6000))
 		} else {
 			out = append(out, "HARNESS-RACE"+tail(p, 3000))
